@@ -55,9 +55,41 @@ impl UnalignedVector {
     #[verifier::external_body]
     pub fn from_slice_nd_(slice: &[f32]) -> (r: UVec) ensures r.vv() == NDist::enc(slice@) { unimplemented!() }
 }
-pub uninterp spec fn same_metric() -> bool;
-#[verifier::external_body]
-pub fn different_metric_() -> (r: bool) ensures r == !same_metric() { unimplemented!() }
+// ---- std::any::TypeId over the two uninterpreted metrics and their vector codecs ----------------------------------------------------
+/// each type that the code compares by TypeId carries an uninterpreted identity
+pub trait TyMark { spec fn tid() -> int; }
+pub uninterp spec fn tid_dist() -> int;
+pub uninterp spec fn tid_ndist() -> int;
+pub uninterp spec fn tid_dist_codec() -> int;
+pub uninterp spec fn tid_ndist_codec() -> int;
+pub struct DistCodec { }
+pub struct NDistCodec { }
+impl TyMark for Dist { open spec fn tid() -> int { tid_dist() } }
+impl TyMark for NDist { open spec fn tid() -> int { tid_ndist() } }
+impl TyMark for DistCodec { open spec fn tid() -> int { tid_dist_codec() } }
+impl TyMark for NDistCodec { open spec fn tid() -> int { tid_ndist_codec() } }
+/// `D::VectorCodec` (rule R1l writes it `<D as DistanceT>::VectorCodec`)
+pub trait DistanceT { type VectorCodec: TyMark; }
+impl DistanceT for Dist { type VectorCodec = DistCodec; }
+impl DistanceT for NDist { type VectorCodec = NDistCodec; }
+/// the type parameters of prepare_changing_distance
+pub type D = Dist;
+pub type ND = NDist;
+pub struct TypeId { pub k: Ghost<int> }
+impl TypeId {
+    #[verifier::external_body]
+    pub fn of<T: TyMark>() -> (r: TypeId) ensures r.k@ == T::tid() { unimplemented!() }
+}
+impl PartialEq for TypeId {
+    #[verifier::external_body]
+    fn eq(&self, other: &TypeId) -> (r: bool) ensures r == (self.k@ == other.k@) { unimplemented!() }
+}
+impl vstd::std_specs::cmp::PartialEqSpecImpl for TypeId {
+    open spec fn obeys_eq_spec() -> bool { true }
+    open spec fn eq_spec(&self, other: &TypeId) -> bool { self.k@ == other.k@ }
+}
+/// the same metric has one identity (and then one codec)
+pub open spec fn same_metric() -> bool { tid_dist() == tid_ndist() }
 
 pub open spec fn reencoded(old_leaf: AVal, dims: int) -> AVal {
     match old_leaf {
@@ -174,12 +206,6 @@ pkg_version_patch_()
 
 //@extract src/writer.rs | impl<D: Distance> Writer<D> | prepare_changing_distance
 //@attr #[verifier::exec_allows_no_decreases_clause]
-//@subst
-<<<
-TypeId::of::<ND>() != TypeId::of::<D>()
-===
-different_metric_()
->>>
 //@subst count=any
 <<<
 UnalignedVector::from_vec(
